@@ -114,25 +114,26 @@ C12Shapes == {1,2,3,4,5,6,12,13}
 C12Views == {1,2,3,4,5,6,7,9}
 GeomC12(arcs) == [shape: IF arcs THEN C12Shapes ELSE {1,2,3,4,5,6}, view: C12Views]
 Mk(st, g) == [shape |-> g.shape, view |-> g.view, cs |-> 0, fill |-> st.fill, stroke |-> st.stroke, width |-> st.width, cap |-> st.cap,
-              join |-> st.join, dash |-> st.dash, off |-> st.off, rule |-> st.rule, img |-> st.img]
+              join |-> st.join, dash |-> st.dash, off |-> st.off, rule |-> st.rule, img |-> st.img, z |-> 0]
 RawDraws == [shape: IF Mode = "rande" THEN (1..11) \cup {21, 22, 23} ELSE 1..11,      \* "rande": with the rotated ellipses (small integer resolutions)
              view: {1,2,3,4,5,6,8}, cs: 0..3, fill: {"none","red","green","grey","black","ggrey","tbrown","rgrey"}, stroke: {"none","none","blue"},
-             width: {1,2}, cap: {0}, join: {2,3}, dash: {0}, off: {0}, rule: 0..3, img: {0}]             \* C14 scenes
+             width: {1,2}, cap: {0}, join: {2,3}, dash: {0}, off: {0}, rule: 0..3, img: {0},
+             z: {0, 0, -1, 3}]                \* C14 scenes; z = canvas z-index set before the draw (sparse and negative values)
 \* a draw without fill and stroke records nothing (Context.DrawPath returns): repaired to a black fill
 \* (a dash offset without a dash array is kept out of the bulk programs: the pdf back-end does not terminate on a negative one --
 \*  the programs of Mode "solidoff" exercise exactly that, in a child process)
 Fix(d00) == LET d0 == IF d00.shape > 20 THEN [d00 EXCEPT !.stroke = "none"] ELSE d00          \* ellipses are only filled
                d == IF d0.dash = 0 THEN [d0 EXCEPT !.off = 0] ELSE d0 IN
            IF d.fill = "none" /\ d.stroke = "none" THEN [d EXCEPT !.fill = "black"] ELSE d
-SolidOff == [shape: {1}, view: {1, 3}, cs: {0}, fill: {"none", "red"}, stroke: {"blue"}, width: {2}, cap: {0}, join: {0, 4}, dash: {0}, off: {-1, 1}, rule: {0}, img: {0}]
+SolidOff == [shape: {1}, view: {1, 3}, cs: {0}, fill: {"none", "red"}, stroke: {"blue"}, width: {2}, cap: {0}, join: {0, 4}, dash: {0}, off: {-1, 1}, rule: {0}, img: {0}, z: {0}]
 \* (fill and stroke share the colours red and blue: a back-end with ONE current colour (PostScript) must re-emit it after grestore)
 SubStyles == { Fix(d) : d \in [shape: {1}, view: {1}, cs: {0}, fill: {"none","red","redh"}, stroke: {"none","blue","blueh","red"},
-                               width: {1}, cap: {0}, join: {0,3}, dash: {0,1}, off: {0}, rule: {0,1}, img: {0}] }
+                               width: {1}, cap: {0}, join: {0,3}, dash: {0,1}, off: {0}, rule: {0,1}, img: {0}, z: {0}] }
 SubStylesBig == { Fix(d) : d \in [shape: {1,4}, view: {1,3}, cs: {0}, fill: {"none","red","redh","dred"}, stroke: {"none","blue","blueh"},
-                               width: {1}, cap: {0}, join: {0,2}, dash: {0,1}, off: {0}, rule: {0,1}, img: {0,1}] }
+                               width: {1}, cap: {0}, join: {0,2}, dash: {0,1}, off: {0}, rule: {0,1}, img: {0,1}, z: {0}] }
 
 SubStylesMid == { Fix(d) : d \in [shape: {1}, view: {1,3}, cs: {0}, fill: {"none","red","redh","dred"}, stroke: {"none","blue","blueh"},
-                               width: {1}, cap: {0}, join: {0}, dash: {0,1}, off: {0}, rule: {0,1}, img: {0,1}] }
+                               width: {1}, cap: {0}, join: {0}, dash: {0,1}, off: {0}, rule: {0,1}, img: {0,1}, z: {0}] }
 
 HasFill(d) == d.fill # "none"
 HasStroke(d) == d.stroke # "none"
